@@ -676,8 +676,17 @@ func tlsShutdown(c *core.Ctx, r *core.Rand, i int) {
 		}
 		tc.Close()
 	}
-	for _, cn := range idle {
-		if r.Bool() {
+	if i%2 == 0 {
+		// a peer that has connected and is still silent when Shutdown is called
+		if cn, err := w.l.Dial(); err == nil {
+			idle = append(idle, cn)
+			kinds += "s"
+			c.Count("tls_peers_silent_at_shutdown", 1)
+			time.Sleep(2 * time.Millisecond)
+		}
+	}
+	for k, cn := range idle {
+		if k < len(idle)-1 && r.Bool() {
 			cn.Close()
 		} else {
 			defer cn.Close()
@@ -689,8 +698,8 @@ func tlsShutdown(c *core.Ctx, r *core.Rand, i int) {
 	go func() { err := w.srv.Shutdown(); w.log("shutdownReturned", "", ""); shut <- err }()
 	select {
 	case <-shut:
-	case <-time.After(30 * time.Second):
-		c.Violation("C16:shutdown-does-not-return", fmt.Sprintf("Shutdown has not returned after 30 s on a TLS listener where %d peers did not complete their handshake (kinds %s)", nBad, kinds), map[string]any{"goroutines": census.Goroutines()})
+	case <-time.After(15 * time.Second):
+		c.Violation("C16:shutdown-does-not-return", fmt.Sprintf("Shutdown has not returned after 15 s (grace period: 3 s) on a TLS listener where %d peers did not complete their handshake (kinds %s)", nBad, kinds), map[string]any{"goroutines": census.Goroutines()})
 		return
 	}
 	serveErr := <-w.done
@@ -716,7 +725,7 @@ func Spec() *core.Spec {
 			"an event log with a global logical clock (connect/terminate hooks with a connection id installed in the context, handler start/end/cancel, shutdown called/returned, Serve returned) is checked offline; " +
 			"grace-period scenarios take 3 s and are judged with a one-sided comparison (a cancellation must not come EARLIER than 2.9 s after Shutdown was called); directed schedule through the verif hook between Accept and wg.Add; connect storms (16 clients connecting in a loop on 2 processors while Shutdown is called). Shutdown called twice (together / in a row) or after the owner closed the listener, judged at the first return; distinct = distinct state combinations",
 		Assumptions: []string{"the documented grace period is 3 s; load can only make a cancellation later, so the one-sided comparison cannot be falsified by a slow machine", "goroutines gone = none with a library frame within 10 s after Shutdown returned"},
-		Required:    []string{"scenarios", "tls_shutdowns", "events", "paired_hooks", "failed_connect_hooks", "in_flight_answered", "in_flight_cancelled", "census_checks", "directed.accepted-not-yet-counted", "connect_storms", "shutdown_mode.twice-together", "shutdown_mode.twice-in-a-row", "shutdown_mode.listener-closed-first"},
+		Required:    []string{"scenarios", "tls_shutdowns", "tls_peers_silent_at_shutdown", "events", "paired_hooks", "failed_connect_hooks", "in_flight_answered", "in_flight_cancelled", "census_checks", "directed.accepted-not-yet-counted", "connect_storms", "shutdown_mode.twice-together", "shutdown_mode.twice-in-a-row", "shutdown_mode.listener-closed-first"},
 		Shards:      func(string) int { return 8 },
 		Families: []core.Family{
 			{Name: "scenarios", N: func(tier string) int {
